@@ -1,6 +1,7 @@
 package vc
 
 import (
+	"os"
 	"fmt"
 	"go/token"
 	"go/types"
@@ -16,6 +17,75 @@ type monitorRef struct {
 	obj   *Term
 	objT  types.Type // struct type of obj
 	entry *State     // state right after acquire (for old() in trans clauses)
+	owned bool       // entered while holding the lock of the monitor that owns this object
+}
+
+// ownedTarget: the object that field f of monitor m points to (current state), with its struct type.
+func (c *VCtx) ownedTarget(st *State, m *monitorRef, f string) (*Term, types.Type) {
+	stt, ok := m.objT.Underlying().(*types.Struct)
+	if !ok {
+		return nil, nil
+	}
+	for i := 0; i < stt.NumFields(); i++ {
+		fd := stt.Field(i)
+		if fd.Name() != f {
+			continue
+		}
+		pt, ok := fd.Type().Underlying().(*types.Pointer)
+		if !ok {
+			return nil, nil
+		}
+		h := c.heap(st, fieldHeapName(m.objT, f), ArrSort(SRef, SRef))
+		return Select(h, m.obj), pt.Elem()
+	}
+	return nil, nil
+}
+
+// ownedByHeld: is obj the target of an "owns" field of a monitor whose lock is held?
+func (c *VCtx) ownedByHeld(st *State, obj *Term) bool {
+	for _, h := range st.held {
+		for _, m := range h.specs {
+			for _, f := range m.spec.Owns {
+				if t, _ := c.ownedTarget(st, m, f); t != nil && t.S == obj.S {
+					return true
+				}
+			}
+		}
+	}
+	return false
+}
+
+// havocOwned: the state of an owned object may have been changed by earlier holders of the owner's lock.
+func (c *VCtx) havocOwned(st *State, m *monitorRef, f string) {
+	t, et := c.ownedTarget(st, m, f)
+	if t == nil {
+		return
+	}
+	sp := c.objectSpec(et)
+	if sp == nil {
+		return
+	}
+	own, whole := c.guardedHeaps(sp, et)
+	for _, hn := range own {
+		hs := c.heapSorts[hn]
+		cur := c.heap(st, hn, hs)
+		_, vs := arrParts(hs)
+		nv := c.fresh("hv", vs)
+		c.wfValue(st, nv)
+		st.heaps[hn] = c.name("h", Store(cur, t, nv))
+	}
+	seen := map[string]bool{}
+	for _, hn := range whole {
+		if !seen[hn] {
+			seen[hn] = true
+			c.havocHeap(st, hn)
+		}
+	}
+	om := &monitorRef{spec: sp, obj: TG(SRef, types.NewPointer(et), t.S), objT: et}
+	sc := c.objScope(om, st, st)
+	for _, inv := range sp.Invs {
+		c.factG(And(st.pc, Not(Eq(t, Null))), c.translateBool(sc, inv.E))
+	}
 }
 
 // ---------- time and channels ----------
@@ -229,6 +299,11 @@ func (c *VCtx) checkAccess(fr *Frame, st *State, l *Loc, write bool, pos token.P
 		h := c.heap(st, hn, ArrSort(SRef, SInt))
 		c.setHeap(st, hn, Store(h, l.Base, Add(Select(h, l.Base), IntLit(1))))
 	}
+	if c.contract != nil && c.contract.Opts["constructor"] != "" && strings.Contains(" "+c.contract.Opts["constructor"]+" ", " "+p.spec.Type+" ") {
+		// the function builds an object of this type that no other thread can see yet
+		c.staticObl(kind, desc+" [constructor: object not shared yet]", true, "")
+		return
+	}
 	switch p.kind {
 	case "guarded":
 		if isFreshRef(l.Base) {
@@ -247,7 +322,7 @@ func (c *VCtx) checkAccess(fr *Frame, st *State, l *Loc, write bool, pos token.P
 				}
 			}
 		}
-		c.staticObl(kind, desc, false, fmt.Sprintf("field is guarded by %s.%s but that lock is not held here (held: %s)", p.spec.Type, p.spec.Lock, heldNames(st)))
+		c.staticObl(kind, desc, false, fmt.Sprintf("field is guarded by %s.%s but that lock is not held here (held: %s; object accessed: %s)", p.spec.Type, p.spec.Lock, heldNames(st), trimS(l.Base.S)))
 	case "immutable":
 		if !write || isFreshRef(l.Base) {
 			c.staticObl(kind, desc, true, "")
@@ -395,6 +470,18 @@ func (c *VCtx) acquire(fr *Frame, st *State, lock *Term, write bool, pos token.P
 	for _, o := range owners {
 		sp := c.objectSpec(o.typ)
 		own, whole := c.guardedHeaps(sp, o.typ)
+		if isFreshRef(o.obj) && !c.isPublished(o.obj) {
+			// an object allocated by this call and not yet published: nobody else can have touched it, and its
+			// invariants need not hold yet (they are checked when the lock is released)
+			h.specs = append(h.specs, &monitorRef{spec: sp, obj: o.obj, objT: o.typ, owned: true})
+			continue
+		}
+		if c.ownedByHeld(st, o.obj) {
+			// the object is reachable only through a monitor whose lock this thread already holds: no interference
+			own, whole = nil, nil
+			h.specs = append(h.specs, &monitorRef{spec: sp, obj: o.obj, objT: o.typ, owned: true})
+			continue
+		}
 		if sp.Mode == "sequential" {
 			own, whole = nil, nil
 			c.eng.assume("objects in sequential mode (" + sp.Type + "): calls do not overlap in time (property over call histories)")
@@ -419,8 +506,20 @@ func (c *VCtx) acquire(fr *Frame, st *State, lock *Term, write bool, pos token.P
 	}
 	st.held[lock.S] = h
 	c.lmAcquire(st, lock)
+	// objects owned by the monitors just entered: other holders of this lock may have changed them
+	for _, m := range h.specs {
+		if m.owned {
+			continue
+		}
+		for _, f := range m.spec.Owns {
+			c.havocOwned(st, m, f)
+		}
+	}
 	// assume the invariants
 	for _, m := range h.specs {
+		if m.owned {
+			continue
+		}
 		sc := c.objScope(m, st, st)
 		for _, inv := range m.spec.Invs {
 			c.factG(st.pc, c.translateBool(sc, inv.E))
@@ -443,6 +542,9 @@ func (c *VCtx) acquire(fr *Frame, st *State, lock *Term, write bool, pos token.P
 	for _, m := range h.specs {
 		m.entry = st.clone()
 	}
+	if len(h.specs) > 0 && !(h.specs[0].owned && len(st.held) > 1) {
+		c.lastCSEntry = h.specs[0].entry
+	}
 }
 
 func (c *VCtx) objScope(m *monitorRef, st, old *State) *Scope {
@@ -463,6 +565,13 @@ func (c *VCtx) release(fr *Frame, st *State, lock *Term, pos token.Pos) {
 		return
 	}
 	c.csCount++
+	if fr != nil && fr.contract != nil {
+		fr.unlocks++
+		c.runGhost(fr, st, fr.contract, fmt.Sprintf("unlock %d", fr.unlocks), nil)
+	}
+	if len(h.specs) > 0 && h.specs[0].entry != nil && !(h.specs[0].owned && len(st.held) > 1) {
+		c.lastCSEntry = h.specs[0].entry
+	}
 	c.lmRelease(st, lock, pos)
 	for _, m := range h.specs {
 		sc := c.objScope(m, st, m.entry)
@@ -615,6 +724,9 @@ func (c *VCtx) runGhost(fr *Frame, st *State, ct *FuncContract, at string, extra
 }
 
 func (c *VCtx) ghostAssign(fr *Frame, st *State, ct *FuncContract, g *GhostStmt, extra map[string]Val) {
+	if os.Getenv("GOVC_DEBUG") != "" {
+		fmt.Fprintf(os.Stderr, "ghost %s @%s in %s (top %s): %s\n", ct.Name, g.At, FuncKey(fr.fn), FuncKey(c.top), g.Src)
+	}
 	lhsSrc, rhsSrc, ok := strings.Cut(g.Src, ":=")
 	if !ok {
 		unsup("ghost statement needs ':=' (%s)", g.Src)
@@ -820,4 +932,51 @@ func (c *VCtx) wfValue(st *State, v *Term) {
 		c.fact(Or(Eq(SlArr(v), Null), Select(c.allocHeap(st), SlArr(v))))
 		c.fact(c.sliceShape(v))
 	}
+}
+
+func trimS(s string) string {
+	if len(s) > 160 {
+		return s[:160] + "..."
+	}
+	return s
+}
+
+// publish: the value may now be reachable by other threads (or by code this call does not control).
+func (c *VCtx) publish(v Val) {
+	if c.published == nil {
+		c.published = map[string]bool{}
+	}
+	switch x := v.(type) {
+	case *Term:
+		if x.Sort == SRef {
+			c.published[x.S] = true
+		}
+	case *FnVal:
+		for _, b := range x.Binds {
+			c.publish(b)
+		}
+	case *Loc:
+		if x.Base != nil {
+			c.published[x.Base.S] = true
+		}
+	case Tuple:
+		for _, e := range x {
+			c.publish(e)
+		}
+	}
+}
+
+func (c *VCtx) isPublished(t *Term) bool {
+	if c.published[t.S] {
+		return true
+	}
+	// an embedded sub-object is published with its container
+	if info := c.embedded[t.S]; info != nil {
+		for _, lk := range info.chain {
+			if c.published[lk.term.S] {
+				return true
+			}
+		}
+	}
+	return false
 }
